@@ -197,8 +197,8 @@ def c16_case(data: bytes) -> Dict[str, Any]:
     cookies, seen = [], set()
     for i in range(n):
         name = "".join(_TOKEN[b % len(_TOKEN)] for b in r.take(1 + r.byte() % 4)) or f"k{i}"
-        if name in seen:
-            name += str(i)
+        while name in seen:  # names within one response are distinct (stated assumption of the check)
+            name += "_"
         seen.add(name)
         value = (r.chunk(24) if i < n - 1 else r.rest()).decode("latin-1")
         cookies.append({"name": name, "value": value, "expires": None, "max_age": None})
